@@ -35,15 +35,6 @@ class Chain:
         self.maps = [site_to_doc_index(s, d) for s, d in zip(self.sites, self.docs)]
         self.dims = [s.dim for s in self.sites]
 
-    def to_doc_basis(self, psi, n_front=0, n_back=0):
-        """psi: ndarray with legs (front..., p_0 .. p_{n-1}, back...) in the site bases -> same in the documentation bases."""
-        out = psi
-        n = psi.ndim - n_front - n_back
-        for k in range(n):
-            inv = np.argsort(self.maps[self._win0 + k]) if hasattr(self, '_win0') else np.argsort(self.maps[k])
-            out = np.take(out, inv, axis=n_front + k)
-        return out
-
 
 def random_sector_tensor(rng, chain, cplx=True, sector=None):
     """random tensor (d_0, .., d_{L-1}) in the site bases lying in ONE total-charge sector (so that it is a valid state for the
@@ -92,6 +83,7 @@ def random_finite_mps(rng, chain, cplx=True, chi_max=None, sector=None):
     mps = mps_from_tensor(chain, psi, q)
     if chi_max is not None:
         mps.compress_svd({'chi_max': int(chi_max), 'svd_min': 1e-13})
+        mps.canonical_form(renormalize=True)
         mps.norm = 1.0
     return mps, q
 
